@@ -155,7 +155,7 @@ let main_exec () =
   (match Array.to_list Sys.argv with
    | _ :: "exec" :: b :: _ -> budget := ios b
    | _ -> ());
-  let cases = ref 0 and runs = ref 0 and mism = ref 0 and nontrivial = ref 0 in
+  let cases = ref 0 and runs = ref 0 and mism = ref 0 and nontrivial = ref 0 and api_runs = ref 0 in
   let cur_id = ref "" and cur_pat = ref "" and cur_flags = ref "" in
   let insns = ref [] and brs = ref [] and hdr = ref None in
   let prog : program option ref = ref None in
@@ -260,6 +260,18 @@ let main_exec () =
        when the program has a prefilter the two engines are compared on its prefilter-free twin (btx/pkx) *)
     if find "btx" <> None then c05 "btx" "pkx" else begin c05 "bt8" "pk8"; c05 "bta" "pka" end;
     List.iter (fun r -> if r.status = "panic" then viol "C06" (Printf.sprintf "%s:panic" r.engine)) g;
+    (* C06: every reported range (match and captures) satisfies 0 <= start <= end <= len and lies on character boundaries *)
+    if g <> [] then begin
+      let bytes = Array.of_list (List.map int_of_n !hay) in
+      let len = Array.length bytes in
+      let boundary p = p >= 0 && p <= len && (p = len || bytes.(p) land 0xC0 <> 0x80) in
+      let okr (a, b) = a <= b && boundary a && boundary b in
+      List.iter (fun r ->
+        if r.status = "ok" then
+          match List.find_opt (fun (s, e, cs) -> s <> 99999 && not (okr (s, e) && List.for_all (fun c -> match c with None -> true | Some ab -> okr ab) cs)) r.ms with
+          | Some (s, e, _) -> viol "C06" (Printf.sprintf "%s:range-%d-%d-or-a-capture-is-out-of-bounds-or-inside-a-character" r.engine s e)
+          | None -> ()) g
+    end;
     (* C09: the harness polls every iterator again after it returned None; a match yielded then is recorded at offset 99999 *)
     List.iter (fun r -> if List.exists (fun (s, _, _) -> s = 99999) r.ms then viol "C09" (Printf.sprintf "%s:yields-again-after-None" r.engine)) g;
     (match find "bt8", find "pk8" with
@@ -370,6 +382,22 @@ let main_exec () =
       | "X" :: what :: _ ->
         incr mism;
         Printf.printf "MISMATCH case=%s pat=%s flags=%s kind=%s\n" !cur_id !cur_pat !cur_flags what
+      | "RA" :: s :: status :: ms ->
+        (* C09 at the public entry point: Regex::find_from is the executor's iteration from an in-range start and yields
+           nothing from a start beyond the end *)
+        incr api_runs;
+        let api_ms = parse_matches ms in
+        let s = ios s in
+        if status = "ok" then begin
+          if s > List.length !hay then begin
+            if api_ms <> [] then begin
+              let saved = !start in start := s; viol "C09" (Printf.sprintf "find_from:start-beyond-end-yields:%s" (show_matches api_ms)); start := saved end
+          end else
+            (match List.find_opt (fun r -> r.engine = "bt8") !group with
+             | Some r when r.status = "ok" && s = !start ->
+               if r.ms <> api_ms then viol "C09" (Printf.sprintf "find_from=%s/executor-iteration=%s" (show_matches api_ms) (show_matches r.ms))
+             | _ -> ())
+        end else if status = "panic" then viol "C06" "find_from:panic"
       | "R" :: engine :: status :: steps :: ms ->
         incr runs;
         let p = build () in
@@ -421,7 +449,7 @@ let main_exec () =
       | _ -> failwith ("bad line: " ^ line)
     done
   with End_of_file -> ());
-  Printf.printf "SUMMARY cases=%d runs=%d mismatches=%d nontrivial=%d model_steps=%d propviol=%d inconclusive=%d stage_checks=%d ir_evals=%d ir_inconclusive=%d bt_theorem_irs=%d opt_theorem_irs=%d\n" !cases !runs !mism !nontrivial !total_steps !pviol !inconclusive !stage_checks !ir_evals !ir_inconclusive !bt_covered !opt_covered
+  Printf.printf "SUMMARY cases=%d runs=%d mismatches=%d nontrivial=%d model_steps=%d propviol=%d inconclusive=%d stage_checks=%d ir_evals=%d ir_inconclusive=%d bt_theorem_irs=%d opt_theorem_irs=%d api_runs=%d\n" !cases !runs !mism !nontrivial !total_steps !pviol !inconclusive !stage_checks !ir_evals !ir_inconclusive !bt_covered !opt_covered !api_runs
 
 let () =
   match Array.to_list Sys.argv with
